@@ -263,6 +263,19 @@ func init() {
 			"Failed/Succeeded pods never become Ready; under OrderedReady >=2 such pods outside the desired set are the premise failure the property names (excused, counted)"}, apiAssumptions...)
 		grids := c02Grids()
 		seeds := append(searchSeeds(grids), c09ExtraSeeds(false)...)
+		{
+			// a live pod whose volumes do not cover the claim templates (a template added to the running set; an orphan
+			// that never had the volume): only this check carries these seeds
+			w := world.New()
+			for _, pol := range []string{"OrderedReady", "Parallel"} {
+				for _, owner := range []string{"", "none"} {
+					bare := gen.Cell{Present: true, Phase: v1.PodRunning, Ready: true, Rev: 0, Owner: owner, NoVols: true}
+					sc := gen.Scenario{Spec: gen.Spec{Name: "web", Replicas: 2, Policy: pol, Strategy: gen.RU(0), Limit: 10, Template: 1, Claims: []string{"data"}}, Revs: []int{1}, Cur: 0,
+						Cells: []gen.Cell{bare, gen.ReadyAt(0), gen.Absent}}
+					seeds = append(seeds, explore.Seed{Label: sc.String(), State: sc.Build(w)})
+				}
+			}
+		}
 		D := 1
 		if explore.Tier() == "thorough" {
 			D = 2
@@ -278,7 +291,13 @@ func init() {
 			Deviations: deviationsFor(devOpts{N: grids[0].N, MaxR: grids[0].MaxR, MaxSlots: 2, Edits: true, Regress: true}),
 			FaultKinds: []string{world.FErr500},
 			FaultOn:    func(c *world.Call) bool { return c.IsWrite() },
-			Goal:       goalC02, Excuse: excuseC02,
+			Goal: func(st *world.State) string {
+				// named first, so that the recorded finding is recognised by its input and nothing else is
+				if p := podLackingClaimVolumes(st); p != "" {
+					return "live pod " + p + " lacks the volumes of the set's claim templates, and the pod update that is to add them is one the API server refuses (pod specs are immutable): " + goalC02(st)
+				}
+				return goalC02(st)
+			}, Excuse: excuseC02,
 			Deadline: explore.Deadline(110*time.Second, 14*time.Minute)}
 		g := explore.Search(rep, cfg, seeds)
 		g.Analyse()
@@ -342,4 +361,34 @@ func init() {
 		rep.Validated = g.Reconciles
 		return rep.Finish()
 	})
+}
+
+// podLackingClaimVolumes names a live pod of the set (by name and owner, or an orphan it would adopt) that has no volume
+// for one of the set's claim templates, "" if there is none.
+func podLackingClaimVolumes(st *world.State) string {
+	set := st.API.Sets["web"]
+	if set == nil || len(set.Spec.VolumeClaimTemplates) == 0 {
+		return ""
+	}
+	for _, n := range world.SortedKeys(st.API.Pods) {
+		p := st.API.Pods[n]
+		if _, ok := oracle.OrdinalOf(set.Name, p.Name); !ok || p.DeletionTimestamp != nil {
+			continue
+		}
+		if ref := oracle.ControllerOf(p); ref != nil && ref.UID != set.UID {
+			continue
+		}
+		have := map[string]bool{}
+		for _, v := range p.Spec.Volumes {
+			if v.PersistentVolumeClaim != nil {
+				have[v.Name] = true
+			}
+		}
+		for _, t := range set.Spec.VolumeClaimTemplates {
+			if !have[t.Name] {
+				return p.Name
+			}
+		}
+	}
+	return ""
 }
